@@ -1,5 +1,5 @@
 /-
-  C22 — Linked debug info still points at the right source text.   (partial)
+  C22 — Linked debug info still points at the right source text.   (proved at the level of the debug symbols)
   Proved: the combined source is `A ++ "\n" ++ B`; its newline table is A's newlines, the separator at `len A`, then B's
   newlines shifted by `len A + 1`, so the combined line count is the sum of both line counts and B's line `l` is the
   combined line `l + lines(A)`; any byte range of B, shifted by `len A + 1`, slices the same text out of the combined
@@ -8,8 +8,12 @@
   `lines(A)` and A's blocks are kept.
   `read_line_after_link`: in the combined source every line of A reads what it read in A and line `l` of B, now line
   `lines(A) + l`, reads what it read in B (through C25's `line_span_trim`: `read_line` = the trimmed line).
-  Not proved: the composition with `rev_lookup_line` on the merged line map as one statement; the correspondence check
-  compares, for every mapped address of every linked file, the line text before and after linking.
+  `link_find` / `linked_line_reads_same_text`: when A's line blocks start below A's line count (what the assembler produces)
+  and B's re-keyed lines fit 64 bits, the merged line map is exactly A's blocks followed by B's re-keyed blocks, so
+  `rev_lookup_line` of an address recorded in A gives the same line, of an address recorded only in B gives its line plus
+  `lines(A)`, and `read_line` of that line reads the same text as in the file the address came from.
+  Label spans after linking are subject to findings F21/F23 for labels whose upper-casing changes the byte length; the
+  correspondence check compares, for every mapped address and label of every linked file, text before and after linking.
 -/
 import Lc3V.Lemmas.SortedMap
 import Lc3V.Props.C25
@@ -188,7 +192,126 @@ theorem read_line_link (x y : DebugSyms) (hx : x.src = ofText x.src.src) (hy : y
   rw [← hx, ← hy] at this
   exact this
 
+/-! ### address → line → text after linking -/
+
+/-- inserting a key above every key of a sorted map appends -/
+theorem insert_above {α} (k : Nat) (v : α) : ∀ (m : List (Nat × α)), (∀ x ∈ m, x.1 < k) → insertSortedBy k v m = m ++ [(k, v)] := by
+  intro m
+  induction m with
+  | nil => intro _; rfl
+  | cons e rest ih =>
+    intro h
+    obtain ⟨k', v'⟩ := e
+    have hk : k' < k := h (k', v') (by simp)
+    unfold insertSortedBy
+    rw [if_neg (by omega), if_neg (by omega), ih (fun x hx => h x (by simp [hx]))]
+    rfl
+
+/-- folding a sorted list of keys that are all above the map's keys appends it -/
+theorem foldl_insert_above {α} : ∀ (sh m : List (Nat × α)), SortedKeys sh → (∀ x ∈ m, ∀ y ∈ sh, x.1 < y.1) →
+    sh.foldl (fun m e => insertSortedBy e.1 e.2 m) m = m ++ sh := by
+  intro sh
+  induction sh with
+  | nil => intro m _ _; simp
+  | cons y ys ih =>
+    intro m hs hlt
+    simp only [List.foldl_cons]
+    rw [insert_above y.1 y.2 m (fun x hx => hlt x hx y (by simp))]
+    rw [ih (m ++ [(y.1, y.2)]) hs.tail ?_]
+    · simp
+    · intro x hx z hz
+      rcases List.mem_append.mp hx with h1 | h1
+      · exact hlt x h1 z (by simp [hz])
+      · simp only [List.mem_singleton] at h1
+        rw [h1]
+        exact hs.head_lt z hz
+
+theorem find_map_shift (m : LineMap) (L : Nat) (a : W) (hsat : ∀ x ∈ m, x.1 + L ≤ 18446744073709551615) :
+    LineMap.find (m.map (fun e => (satAdd e.1 L, e.2))) a = (LineMap.find m a).map (· + L) := by
+  unfold LineMap.find
+  induction m with
+  | nil => rfl
+  | cons e rest ih =>
+    have hs : satAdd e.1 L = e.1 + L := by
+      unfold satAdd; have := hsat e (by simp); omega
+    simp only [List.map_cons, List.findSome?_cons, hs]
+    cases hi : idxOf a e.2 0 with
+    | some i => simp only [Option.map_some]; congr 1; omega
+    | none =>
+      simp only [Option.map_none]
+      exact ih (fun x hx => hsat x (by simp [hx]))
+
+theorem sortedKeys_map_shift {α} (L : Nat) : ∀ (m : List (Nat × α)), SortedKeys m → (∀ x ∈ m, x.1 + L ≤ 18446744073709551615) →
+    SortedKeys (m.map (fun e => (satAdd e.1 L, e.2))) := by
+  intro m
+  induction m with
+  | nil => intro _ _; trivial
+  | cons e rest ih =>
+    intro hs hsat
+    simp only [List.map_cons]
+    apply sortedKeys_cons _ _ (ih hs.tail (fun x hx => hsat x (by simp [hx])))
+    intro b hb
+    obtain ⟨z, hz, rfl⟩ := List.mem_map.mp hb
+    have h1 := hs.head_lt z hz
+    have h2 := hsat e (by simp)
+    have h3 := hsat z (by simp [hz])
+    simp only [satAdd]
+    omega
+
+/-- **the address → line query after linking**: when A's line blocks start below A's line count (as the assembler produces
+    them) and B's lines shifted by A's line count still fit 64 bits, the linked line map is A's blocks followed by B's
+    re-keyed blocks, so an address recorded in A keeps its line and an address recorded only in B gets its line plus the
+    number of lines of A -/
+theorem link_find (a b : DebugSyms) (hb : SortedKeys b.lineMap)
+    (hka : ∀ x ∈ a.lineMap, x.1 < a.src.countLines) (hsat : ∀ x ∈ b.lineMap, x.1 + a.src.countLines ≤ 18446744073709551615) (A : W) :
+    (DebugSyms.link a b).lineMap = a.lineMap ++ b.lineMap.map (fun e => (satAdd e.1 a.src.countLines, e.2)) ∧
+    (DebugSyms.link a b).lineMap.find A =
+      (match a.lineMap.find A with
+       | some l => some l
+       | none => (b.lineMap.find A).map (· + a.src.countLines)) := by
+  have hM : (DebugSyms.link a b).lineMap = a.lineMap ++ b.lineMap.map (fun e => (satAdd e.1 a.src.countLines, e.2)) := by
+    unfold DebugSyms.link
+    dsimp only
+    apply foldl_insert_above _ _ (sortedKeys_map_shift _ _ hb hsat)
+    intro x hx y hy
+    obtain ⟨z, hz, rfl⟩ := List.mem_map.mp hy
+    have h1 := hka x hx
+    have h2 := hsat z hz
+    simp only [satAdd]
+    omega
+  refine ⟨hM, ?_⟩
+  rw [hM]
+  have hshift := find_map_shift b.lineMap a.src.countLines A hsat
+  unfold LineMap.find at hshift ⊢
+  rw [List.findSome?_append]
+  cases h1 : List.findSome? (fun b => Option.map (fun x => b.1 + x) (idxOf A b.2 0)) a.lineMap with
+  | some l => rfl
+  | none => simp only [Option.none_or]; exact hshift
+
+/-- **C22 at the level of the debug symbols**: after linking, the source line reported for an address reads the same text as in
+    the file the address came from -/
+theorem linked_line_reads_same_text (a b : DebugSyms) (ha : a.src = ofText a.src.src) (hbs : b.src = ofText b.src.src)
+    (hb : SortedKeys b.lineMap) (hka : ∀ x ∈ a.lineMap, x.1 < a.src.countLines)
+    (hsat : ∀ x ∈ b.lineMap, x.1 + a.src.countLines ≤ 18446744073709551615) (A : W) :
+    (∀ l, a.lineMap.find A = some l → l < a.src.countLines →
+      (DebugSyms.link a b).lineMap.find A = some l ∧ (DebugSyms.link a b).src.readLine l = a.src.readLine l) ∧
+    (∀ l, a.lineMap.find A = none → b.lineMap.find A = some l → l < b.src.countLines →
+      (DebugSyms.link a b).lineMap.find A = some (l + a.src.countLines) ∧
+      (DebugSyms.link a b).src.readLine (l + a.src.countLines) = b.src.readLine l) := by
+  obtain ⟨_, hf⟩ := link_find a b hb hka hsat A
+  obtain ⟨r1, r2⟩ := read_line_link a b ha hbs
+  constructor
+  · intro l hl hlt
+    rw [hf, hl]
+    exact ⟨rfl, r1 l hlt⟩
+  · intro l hn hl hlt
+    rw [hf, hn, hl]
+    refine ⟨rfl, ?_⟩
+    rw [Nat.add_comm]
+    exact r2 l hlt
+
 def obligations : List Lean.Name :=
-  [``nlFrom_append, ``nl_of_link, ``count_lines_link, ``slice_shift, ``slice_prefix, ``label_shift, ``label_shift_none, ``link_source, ``link_keeps_a_blocks, ``read_line_after_link, ``read_line_link]
+  [``linked_line_reads_same_text, ``link_find, ``foldl_insert_above, ``find_map_shift,
+   ``nlFrom_append, ``nl_of_link, ``count_lines_link, ``slice_shift, ``slice_prefix, ``label_shift, ``label_shift_none, ``link_source, ``link_keeps_a_blocks, ``read_line_after_link, ``read_line_link]
 
 end Lc3V.C22
